@@ -165,6 +165,12 @@ func (e *Engine) checkWith(extra *smt.Term) (smt.Result, map[string]uint64) {
 	e.S.Push()
 	e.S.Assert(extra)
 	r := e.S.Check()
+	if r == smt.Unknown && e.S.CheckFresh() == smt.Unsat {
+		// the incremental core timed out; the same stack is unsatisfiable for a fresh, non-incremental solver
+		r = smt.Unsat
+		e.S.NUnk--
+		e.S.NUnsat++
+	}
 	var m map[string]uint64
 	if r == smt.Sat {
 		m, _ = e.modelAfterSat()
